@@ -1079,6 +1079,22 @@ func (r *aeRun) evalInstr(fr *frame, v ssa.Value) any {
 				return r.mkTerm(fmt.Sprintf("%s[%d]", b.key, k), b.side, x.Type(), akOrder, []string{b.key})
 			}
 		}
+		if ii, ok := idx.(avIndex); ok && isStringType(x.X.Type()) {
+			if b, ok := base.(avTerm); ok {
+				// the byte at the generic position of the analysed loop
+				if !r.inIter || ii.off != 0 {
+					r.oof("generic index outside the analysed loop")
+				}
+				pk := "present:" + b.key
+				if _, ok := r.ctx.terms[pk]; !ok {
+					r.ctx.terms[pk] = &termInfo{kind: akPresence, base: []string{"len(" + b.key + ")"}}
+				}
+				if r.posOf(pk, b.side) != 1 {
+					r.oof("element read at an absent position")
+				}
+				return r.mkTerm(b.key+"[i]", b.side, x.Type(), akOrder, nil)
+			}
+		}
 		r.oof("array value indexing")
 	case *ssa.Lookup:
 		return r.lookup(fr, x)
